@@ -237,14 +237,24 @@ func (u *universe) limitCause(a common.Address, s *snap, oc opCtx) string {
 	case "concurrent", "quiescent", "init":
 		return oc.op
 	}
+	// an add into a full pool evicts the cheapest transactions first; when that
+	// removes a pending transaction the rest of that run is demoted into the queue
+	demoted := func(x common.Address) bool {
+		return oc.before != nil && len(oc.before.Pending[x]) > len(s.Pending[x])
+	}
 	if a == (common.Address{}) {
+		for x := range s.Queue {
+			if demoted(x) {
+				return "demoted_by_eviction"
+			}
+		}
 		return "after_add"
+	}
+	if demoted(a) {
+		return "demoted_by_eviction"
 	}
 	if oc.touched[a] {
 		return "own_account"
-	}
-	if oc.before != nil && len(oc.before.Pending[a]) > len(s.Pending[a]) {
-		return "other_account_demoted_by_eviction"
 	}
 	return "other_account"
 }
